@@ -54,7 +54,7 @@ for d in sorted(glob.glob(os.path.join(HERE, "seeded", "*-*"))):
     elif hl.startswith("at first only") or "first run: only the tie" in hl or "first run: tie" in hl:
         tot["first_nfi"] += 1
 summary = ("\n**Totals** (recomputed from `seeded/*/meta.json` by `tools/seedtable.py`): %(breaking)d breaking changes over "
-           "eight rounds — %(input)d reported as `VIOLATION` with a concrete failing input, %(nfi)d as `VIOLATION … "
+           "nine rounds — %(input)d reported as `VIOLATION` with a concrete failing input, %(nfi)d as `VIOLATION … "
            "no-failing-input-found` (an obligation broke and the search found nothing new), %(silent_right)d rightly "
            "silent (the change stopped being a breakage after a `fix:` commit), %(undetected)d not detected. "
            "%(first_missed)d of them were MISSED by the checks as they stood when the change arrived and %(first_nfi)d "
